@@ -68,6 +68,24 @@ R_NULL = _rule("R-NULL", "r_null", all_for=("C07",), text="a pointer parameter t
                "dominates (armed for the parameters where this holds at every dereference on the reviewed tree, tables/null_params.json)")
 
 
+_RD = []
+
+
+def _rules_digest():
+    """Digest of the rule sources and tables: a cached rule result never outlives a change of the rule itself."""
+    if not _RD:
+        import hashlib
+        import os
+        h = hashlib.sha256()
+        for d in ("rules", "tables"):
+            for fn_ in sorted(os.listdir(os.path.join(sxlib.VERIF, d))):
+                if fn_.endswith((".py", ".json")) and fn_ != "floors.json":
+                    with open(os.path.join(sxlib.VERIF, d, fn_), "rb") as fh:
+                        h.update(fn_.encode() + fh.read())
+        _RD.append(h.hexdigest()[:8])
+    return _RD[0]
+
+
 def _both_reprs(name, fn, cfgs=(("K0", ""), ("K3", "/32bit"))):
     """Rules about the arithmetic representation are decided for the 64-bit (K0) AND the 32-bit (K3) limb layout on every
     run, also in the quick tier: the pinned suite builds only one of them, so a slip in the other is exactly what the
@@ -78,7 +96,7 @@ def _both_reprs(name, fn, cfgs=(("K0", ""), ("K3", "/32bit"))):
         import json
         import os
         import core
-        p = os.path.join(sxlib.WORK, "rule.%s.%s.%s.json" % (name, c, sxlib.tree_digest()))
+        p = os.path.join(sxlib.WORK, "rule.%s.%s.%s%s.json" % (name, c, sxlib.tree_digest(), _rules_digest()))
         if os.path.exists(p):
             try:
                 d = json.load(open(p))
@@ -154,6 +172,15 @@ R_SAME = _rule("R-SAME", "r_same", text="a validity test (is_infinity / is_zero)
                "guarded call are identical and its index variables are not reassigned in between (instances discovered on the reviewed tree, tables/same_elem.json)")
 R_LOOP = _rule("R-LOOP", "r_loop", text="a loop that may run zero times keeps its exit test in front of the body (head-tested, or tail-tested behind a dominating test of the same "
                "variable): per (function, condition variables) the number of such loops on the reviewed tree is frozen (tables/loop_sites.json)")
+R_HASH = _rule("R-HASH", "r_hash", text="SHA-256 finalisation and the HMAC key schedule: the pad length, evaluated for all 64 buffer fills, brings the buffer to 56 mod 64 with "
+               "at least one pad byte and stays inside the pad array; the size descriptor is the 64-bit bit count (exact forms); a key is used unhashed exactly up to the "
+               "block size; the outer / inner hashes absorb key ^ 0x5c / key ^ 0x36")
+R_ARGS = _rule("R-ARGS", "r_args", text="a call that passes two variables named like two parameters of the callee passes them in the callee's order (expected count of crossed "
+               "calls is zero; a synthetic crossed call is the positive control)")
+R_COMB = _rule("R-COMB", "r_comb", text="the fixed-base comb multiplication for every supported table size (43x6, 11x6, 2x5): walking secp256k1_ecmult_gen with concrete control "
+               "integers, the table index of block b in round comb_off gathers exactly the scalar bits (b*TEETH + t)*SPACING + comb_off, every block is looked up in every round, "
+               "rounds are separated by one doubling, the recoded words are the scalar's 32-bit limbs; every entry of the precomputed tables of the sizes the pinned build does "
+               "not use equals its definition")
 BOUNDS = [R_CAP, R_RING, R_WRAP, R_INB, R_LEN, R_SIB, R_BITS, R_NULL, R_CURSOR, R_SAME, R_LOOP]
 # every module-level property runs every rule family; obligations are scoped to a property by the function they sit in
 # (core.props_of_function) or by the explicit property set of their instance table, so a rule contributes nothing where
@@ -182,7 +209,7 @@ def _prop(pid, rules, head, not_decided, **kw):
 
 _BOUND_ASSUME = ["distinct pointer parameters do not alias", "summaries: secp256k1_count_bits_set(d, c) in [0, 8c]; clz/ctz ranges"]
 
-ALL_RULES = DECODE + BOUNDS + [R_FLOW, R_ZOF, R_BIND, R_DOM, R_PAIR, R_SIZE]
+ALL_RULES = DECODE + BOUNDS + [R_FLOW, R_ZOF, R_BIND, R_DOM, R_PAIR, R_SIZE, R_LIMB, R_HASH, R_ARGS]
 
 _prop("C01", ALL_RULES,
       "ECDSA, structural clauses (the recovery module is analysed although the pinned build omits it).",
@@ -196,12 +223,13 @@ _prop("C03", ALL_RULES,
 _prop("C04", ALL_RULES,
       "Key algebra, structural clauses.",
       "commutation of secret and public operations, correctness of heap sort beyond its length argument, lexicographic order")
-_prop("C05", [R_FLOW, R_PAIR, R_CONST, R_PACK, R_CAP, R_LIMB],
+_prop("C05", [R_FLOW, R_PAIR, R_CONST, R_PACK, R_CAP, R_LIMB, R_HASH, R_COMB],
       "Arithmetic and hashing kernel — the clauses with a structural part: (hashing) caller lengths reach secp256k1_sha256_write unmodified "
       "(tagged hash, HMAC), sha256_write moves data pointer and remaining length together, sha256_transform compresses consecutive blocks; "
       "scratch checkpoints of the multi-scalar batches are restored on every exit; (data) every numeric constant and every entry of the precomputed ecmult / ecmult_gen "
       "tables, as the compiler sees them in each configuration (4x64 and 8x32 limbs, 5x52 and 10x26), satisfies its defining identity (R-CONST); (kernels) the straight-line "
-      "multi-precision kernels of the three portable configurations compute their specification for every admitted input (R-LIMB: exact integer forms, polynomial identity).",
+      "multi-precision kernels of the three portable configurations compute their specification for every admitted input (R-LIMB: exact integer forms, polynomial identity); the SHA-256 padding / length and HMAC key-block arithmetic "
+      "(R-HASH); the comb schedule and tables of ecmult_gen for every table size (R-COMB).",
       "the group law, wNAF / comb recoding, modular inverse and square root (data-dependent control flow, signed arithmetic), the x86-64 assembly kernels of the pinned build, "
       "the full normalisation's final comparison, and bit-identity of whole computations across configurations",
       assumptions=["R-LIMB: clang's computation types (recorded by sx on every operator) are the widths the arithmetic is carried out in; contracts of the kernels are the "
